@@ -61,7 +61,12 @@ Pool ==
      Q("{ g(li: [2, 3]) }", "", "W", "-"),                                \* 32
      Q("{ f(x: 1) g(fl: 1) }", "", "Y", "-"),                             \* 33 the same literal at an Int and a Float argument
      Q("{ g(i: 7) gni(ni: 7) }", "", "Z", "-"),                           \* 34 ... at Int and Int!
-     Q("{ f(x: 2) g(fl: 3) }", "", "Y", "-")                              \* 35 same shape as 33
+     Q("{ f(x: 2) g(fl: 3) }", "", "Y", "-"),                             \* 35 same shape as 33
+     \* documents that differ only in a REPEATED spread of one fragment (its presence, its directives)
+     Q("{ o { ...G } n { y ...G } } fragment G on O { x }", "", "AA", "-"),                     \* 36
+     Q("{ o { ...G } n { y } } fragment G on O { x }", "", "AB", "-"),                          \* 37
+     Q("{ o { ...G } n { y ...G @skip(if: true) } } fragment G on O { x }", "", "AC", "-"),     \* 38
+     Q("{ o { ...G ...G } n { y } } fragment G on O { x }", "", "AD", "-")                      \* 39
   >>
 
 Schemas == {"s1", "s2"}
